@@ -40,4 +40,54 @@ def subchecks(tier):
     region = system_subcheck("sched_blocked", common.region_profile("C01"), lambda spec: [Conservation()],
                              lambda a, spec, res: a.get("rec_interrupted_service", 0) >= 1 and a.get("blocked_records", 0) >= 1, classes=classes,
                              n={"quick": 3600, "thorough": 30000}, rule="pre-emptive schedules x blocking region (heavy load, grid times); same monitor")
-    return [base, region, fuzz_subcheck(base, tier)]
+    return [base, region, reused_subcheck(), fuzz_subcheck(base, tier)]
+
+
+def reused_subcheck():
+    """Conservation in a *second* simulation built on the same Network object (users loop `Q = ciw.Simulation(N)` over trials)."""
+    import ciw
+    from .. import observe as O
+    from .. import build as B
+    from ..runner import SubCheck
+    from ..sysprop import Activity
+    prof = common.full_profile("C01", max_nodes=3, plans=("max_time",), resumptions=(1, 1), horizon=(4.0, 10.0), budget=400)
+
+    def execute(spec):
+        ciw.seed(spec["seed"])
+        b = B.build(spec)
+        first = O.MonSimulation(b.network, monitors=(), budget=400, obs=False, ps_nodes=b.ps_nodes, **_simkw(spec, B))
+        try:
+            first.simulate_until_max_time(spec["plan"]["T"][0])
+        except Exception:
+            pass
+        act = Activity()
+        mon = Conservation()
+        second = O.MonSimulation(b.network, monitors=[act, mon], budget=400, obs=False, ps_nodes=b.ps_nodes, **_simkw(spec, B))
+        second.plan_steps = [("max_time", spec["plan"]["T"][0])]
+        second.cur_step = second.plan_steps[0]
+        second.call_index = 0
+        aborted = None
+        try:
+            second.simulate_until_max_time(spec["plan"]["T"][0])
+        except O.Budget:
+            pass
+        except Exception as e:
+            if O.harness_fault(e):
+                raise
+            aborted = O.exception_bucket(e)
+        res = O.CaseResult()
+        res.aborted = aborted
+        act.finish(second, res)
+        a = dict(act.a)
+        return {"violations": list(second.violations), "activity": {k: v for k, v in a.items() if v}, "aborted": aborted, "budget_hit": False,
+                "events": second.n_events, "nontrivial": a.get("created", 0) >= 5 and a.get("transfers", 0) >= 1, "classes": ["second_simulation"],
+                "score": second.n_events}
+    return SubCheck("reused_network", execute, strategy=S.netspec(prof), n={"quick": 2400, "thorough": 20000}, kind="system",
+                    rule="conservation monitor on the second Simulation built from one Network object (after a first, unmonitored run)")
+
+
+def _simkw(spec, B):
+    kw = {}
+    if spec.get("tracker"):
+        kw["tracker"] = B.make_tracker(spec["tracker"])
+    return kw
